@@ -462,7 +462,8 @@ class GridBlueprint(yamlize.Object):
         locators = []
         for (i, j), spec in self.gridContents.items():
             locator = spatialGrid[i, j, 0]
-            if spec in latticeIDs:
+            # specifiers given as integers in an explicit `grid contents` section are not strings either
+            if str(spec) in latticeIDs:
                 locators.append(locator)
         return locators
 
